@@ -109,6 +109,16 @@ class C04(Prop):
                 t = {"r": recs, "a": t}
                 op, lit = rng.choice([("~", "alp"), ("~", "eta"), ("!~", "alp"), ("~", "a")])
                 xp, tag, pred = rng.choice(["r[%s%s%s]/%s", "r/[%s%s%s]/%s", "/r[*]/[%s%s%s]/%s"]) % (kf, op, lit, f), "resolves", None
+            if root == "dict" and rng.random() < 0.025:
+                # integers that no float can tell apart: the literal selects exactly the record that holds that very integer
+                big = C6.BIG
+                recs = [{"id": big, "f": "a"}, {"id": big - 1, "f": "b"}, {"id": 7, "f": "c"}]
+                rng.shuffle(recs)
+                t = {"r": recs, "a": t}
+                v = str(rng.choice([big, big - 1, big + 1]))
+                form, tpl = rng.choice([("eq", "r[%s=%s]/%s"), ("ne", "r[%s!=%s]/%s"), ("text", "r/%s[text()=%s]/../%s")])
+                xp, tag = tpl % ("id", v, "f"), "pred"
+                pred = {"form": form, "k": "id", "f": "f", "v": v, "ppath": ["r"]}
             if rng.random() < 0.03:
                 # a list-rooted container of records (plain dicts when it wraps raw data): '..' followed by a further step,
                 # explicit or hidden in a key predicate
